@@ -52,7 +52,7 @@ fn sorter_buffer_case(ctx: &Ctx, stream: &str, idx: u64, rng: &mut Rng, n_insert
         levels: Some(rng.range(0, 2) as u8),
         order: rng.next_u64(),
     };
-    let kind = *rng.pick(&[MergeKind::Concat, MergeKind::Last, MergeKind::Min]);
+    let kind = *rng.pick(&[MergeKind::Concat, MergeKind::Last, MergeKind::Min, MergeKind::KeyedMinMax]);
     let route = Route::ALL[rng.below(3)];
     let out_cfg = WCfg { codec: grenad::CompressionType::None, level: 0, block_size: Some(1024), interval: None, levels: Some(1) };
     // The insert sizes depend on the observed buffer state, so inserts are generated on the fly
@@ -65,6 +65,9 @@ fn sorter_buffer_case(ctx: &Ctx, stream: &str, idx: u64, rng: &mut Rng, n_insert
         let mf = MonMerge::with_plan(kind, None);
         let mf2 = mf.clone();
         let mut sorter = scfg.build(mf, CursorVec);
+        // some scenarios start with a run of zero-length ("", "") entries (the buffer then holds
+        // bounds but no payload byte) followed by an entry that does not fit
+        let empties = if rng.chance(1, 4) { rng.range(1, 12) } else { 0 };
         for seq in 0..n_inserts {
             let (cap, elen, bounds, _chunks) = sorter.verif_buffer_state();
             let remaining = cap - elen - 16 * bounds;
@@ -75,6 +78,13 @@ fn sorter_buffer_case(ctx: &Ctx, stream: &str, idx: u64, rng: &mut Rng, n_insert
                 5 => Some(("oversized", cap * *rng.pick(&[1usize, 2, 5]) + rng.below(3))),
                 6 => Some(("zero-length", 0)),
                 _ => None,
+            };
+            let want = if seq < empties {
+                Some(("zero-length", 0))
+            } else if seq == empties && empties > 0 {
+                Some(("oversized", cap + rng.below(40)))
+            } else {
+                want
             };
             let (class, total) = want.unwrap_or(("small", rng.range(0, 40)));
             let total = total.min(if small { 1200 } else { 40_000 });
@@ -207,7 +217,31 @@ fn reader_borrow_case(ctx: &Ctx, stream: &str, idx: u64, rng: &mut Rng, n_entrie
     let mut g = HistGen::new(&entries, &layout);
     let mut pos = Pos::Fresh;
     let mut log: Vec<String> = Vec::new();
-    for _ in 0..n_ops {
+    for step in 0..n_ops {
+        // now and then: clone the positioned cursor, move the original elsewhere (or drop it),
+        // then read the clone's current entry in full: it must still be the entry the clone
+        // is positioned on
+        if step % 13 == 12 {
+            if let Pos::At(i) = pos {
+                let clone = c.clone();
+                let far = if i < entries.len() / 2 { Op::Last } else { Op::First };
+                if step % 2 == 0 {
+                    let _ = apply(&mut c, &far);
+                    pos = model_step(&m, pos, &far).1;
+                } else if let Ok(fresh) = open_cursor(Cursor::new(&bytes[..])) {
+                    // drop the original, continue on a new cursor
+                    c = fresh;
+                    pos = Pos::Fresh;
+                }
+                let mut clone = clone;
+                let got = apply(&mut clone, &Op::Current);
+                ctx.count("reader_clone_current_after_original_moved_or_dropped", 1);
+                if got != Ok(Some(entries[i].clone())) {
+                    ctx.violation("borrowed-slice-content-wrong", stream, idx, detail("current() of a clone differs after its original moved away or was dropped", format!("expected entry #{}, got {}", i, got.map(|e| hex_opt(&e)).unwrap_or_else(|e| e))));
+                    return;
+                }
+            }
+        }
         let op = g.next_op(rng, pos);
         let (expect, np) = model_step(&m, pos, &op);
         // `apply` copies key and value in full (every borrowed byte is read) right after the
